@@ -129,10 +129,107 @@ def inline_new_helpers(j, known):
                     still.add(t["f"].get("res"))
         still |= (_fn_value_refs(bodies) & done)      # still handed around as a value somewhere (.and_then(Self::helper))
         gone = done - still
-        j["bodies"] = bodies = [b for b in bodies if not (b["path"] in gone or any(b["path"].startswith(g + "::{closure#") for g in gone))]
+        # (promoted constants of an inlined helper stay: the spliced copy still refers to them)
+        j["bodies"] = bodies = [b for b in bodies if b["promoted"] is not None or not (b["path"] in gone or any(b["path"].startswith(g + "::{closure#") for g in gone))]
         by_path = {b["path"]: b for b in bodies if b["promoted"] is None}
         inlined_any += sorted(done)
     return inlined_any
+
+
+def _thread_try(caller, new_blocks, L, J):
+    blocks = caller["blocks"]
+    jb = blocks[J]
+    jt = jb["t"]
+    if not (jt and jt["t"] == "call" and re.search(r"Try>::branch$|::Try::branch$", jt["f"].get("path") or "") and jt["a"]):
+        return
+    a0 = jt["a"][0].get("m") or jt["a"][0].get("c")
+    if not a0 or a0["l"] != L or a0["p"] or jt.get("to") is None or jt["d"]["p"]:
+        return
+    K = jt["to"]
+    kb = blocks[K]
+    kt = kb["t"]
+    if not (kt and kt["t"] == "switch"):
+        return
+    sw = (kt["o"].get("m") or kt["o"].get("c") or {})
+    dsc = [st for st in kb["s"] if st["d"]["l"] == sw.get("l") and not st["d"]["p"] and st["rv"].get("r") == "disc" and st["rv"]["p"]["l"] == jt["d"]["l"] and not st["rv"]["p"]["p"]]
+    if len(dsc) != 1:
+        return
+    targets = dict((v, tb) for v, tb in kt["v"])
+    news = set(new_blocks)
+
+    def assigns(bl, l):
+        return any(st["d"]["l"] == l for st in bl["s"]) or (bl["t"] and bl["t"]["t"] == "call" and bl["t"]["d"]["l"] == l)
+    for bi in list(new_blocks):
+        xb = blocks[bi]
+        # a return site of the helper: the last whole assignment in this block builds Ok(..) / Err(..) into some local R0
+        site = None
+        for st in reversed(xb["s"]):
+            rv = st["rv"]
+            if not st["d"]["p"] and rv.get("r") == "agg" and rv.get("adt") in ("std::result::Result", "std::option::Option") and rv.get("var") in ("Ok", "Err", "Some", "None"):
+                site = (st["d"]["l"], rv["var"])
+            break
+        xt = xb["t"]
+        if xt and xt["t"] == "call" and re.search(r"FromResidual<.*>>::from_residual$|::FromResidual::from_residual$", xt["f"].get("path") or "") and not xt["d"]["p"] and xt.get("to") is not None:
+            site = (xt["d"]["l"], "Err")          # an inner `?` of the helper: from_residual always builds the failure value
+        if site is None or not (xt and xt["t"] in ("goto", "call")) or (xt["t"] == "call" and site[0] != xt["d"]["l"]):
+            continue
+        r0, var = site
+        # follow the straight-line tail (storage-dead / drop-free gotos) to the block that hands R0 to L and jumps to J
+        chain, cur, okc = [], xb["t"]["to"], False
+        for _ in range(6):
+            if cur == J:
+                okc = True
+                break
+            if cur not in news:
+                break
+            cb = blocks[cur]
+            if not (cb["t"] and cb["t"]["t"] == "goto") or assigns(cb, r0) and not all(
+                    st["d"]["l"] != r0 for st in cb["s"]):
+                break
+            chain.append(cur)
+            cur = cb["t"]["to"]
+        if not okc:
+            continue
+        # L must receive R0 (directly in xb when the chain is empty, or in the chain)
+        gets = any(st["d"]["l"] == L and not st["d"]["p"] and st["rv"].get("r") == "use" and ((st["rv"]["o"].get("m") or st["rv"]["o"].get("c") or {}).get("l") == r0)
+                   for b2 in [xb] + [blocks[c] for c in chain] for st in b2["s"])
+        if not gets and r0 != L:
+            continue
+        if var in ("Ok", "Some"):
+            continue            # success sites keep the shared join: the value they deliver stays singly defined
+        tgt = targets.get(1, kt.get("else") if len(targets) == 1 and 1 not in targets else None)      # ControlFlow::Break = 1
+        if tgt is None or tgt >= len(blocks):
+            continue
+        # failure sites get their own copy of: tail, Try::branch, switch (resolved) and the Break arm's first block, with the
+        # branch result in a fresh local so that the shared copy's result keeps a single definition
+        D = jt["d"]["l"]
+        D2 = len(caller["locals"])
+        caller["locals"].append(copy.deepcopy(caller["locals"][D]))
+
+        def ren(x):
+            if isinstance(x, dict):
+                if "l" in x and "p" in x and x["l"] == D:
+                    x["l"] = D2
+                for v in x.values():
+                    if isinstance(v, (dict, list)):
+                        ren(v)
+            elif isinstance(x, list):
+                for v in x:
+                    ren(v)
+            return x
+        base = len(blocks)
+        clones = [copy.deepcopy(blocks[c]) for c in chain] + [ren(copy.deepcopy(jb)), ren(copy.deepcopy(kb)), ren(copy.deepcopy(blocks[tgt]))]
+        for i, cbk in enumerate(clones[:-2]):
+            cbk["t"]["to"] = base + i + 1          # gotos of the tail, then the Try::branch call continuing in the cloned switch block
+        clones[-2]["t"] = {"t": "goto", "to": base + len(clones) - 1}
+        # the resolved switch no longer reads its discriminant temporary: drop that statement from the copy, or the
+        # temporary would have two definitions and the shared switch would lose its meaning for def-based reasoning
+        clones[-2]["s"] = [st for st in clones[-2]["s"] if not (st["d"]["l"] == sw.get("l") and not st["d"]["p"])]
+        blocks.extend(clones)
+        if xb["t"]["t"] == "goto":
+            xb["t"] = {"t": "goto", "to": base}
+        else:
+            xb["t"]["to"] = base
 
 
 def _split_top(s, sep=","):
@@ -335,6 +432,11 @@ def _splice(j, caller, bi, t, h, by_path):
     for i, a in enumerate(t["a"]):
         blk["s"].append({"d": {"l": lo + 1 + i, "p": []}, "rv": {"r": "use", "o": copy.deepcopy(a)}, "sp": t.get("sp")})
     blk["t"] = {"t": "goto", "to": bo}
+    # `helper(..)?`: a spliced return site that builds Ok(..) / Err(..) knows which way the `?` after the call goes.  The
+    # join block (Try::branch) and the switch behind it are duplicated per such return site with the switch resolved, so
+    # that path rules (must-pass, dominance, path facts) do not see the infeasible Err-return -> continue path.
+    if ret_to is not None and not t["d"]["p"]:
+        _thread_try(caller, range(bo, len(caller["blocks"])), t["d"]["l"], ret_to)
     # type parameters of the helper are known types at this call site: bind them from (parameter type, argument type) pairs
     binds = {}
     for i in range(min(h["argc"], len(t.get("aty") or []))):
